@@ -21,15 +21,17 @@ VARIABLES st,        \* [Callers -> "idle" | "called" | "ret"]
           lost, lostAt, now,
           stale,     \* callers parked although no colliding request was outstanding any more
           closing,   \* a user disconnect() has been called
+          tcall, tret, \* [Callers -> time] of the call / of its return (-1: not yet)
           devs       \* deviations from the property that were needed to explain the execution
-ovars == <<st, key, where, released, recv, ans, handed, lost, lostAt, now, stale, devs, closing>>
+ovars == <<st, key, where, released, recv, ans, handed, lost, lostAt, now, stale, devs, closing, tcall, tret>>
 
 OInit == /\ st = [i \in Callers |-> "idle"] /\ key = [i \in Callers |-> ""]
          /\ where = [i \in Callers |-> "none"] /\ released = {} /\ recv = {} /\ ans = {}
-         /\ handed = {} /\ closing = FALSE /\ lost = FALSE /\ lostAt = 0 /\ now = 0 /\ stale = {} /\ devs = {}
+         /\ handed = {} /\ closing = FALSE /\ tcall = [i \in Callers |-> 0 - 1] /\ tret = [i \in Callers |-> 0 - 1] /\ lost = FALSE /\ lostAt = 0 /\ now = 0 /\ stale = {} /\ devs = {}
 
 Call(i, k) == /\ st[i] = "idle"
               /\ st' = [st EXCEPT ![i] = "called"] /\ key' = [key EXCEPT ![i] = k]
+              /\ tcall' = [tcall EXCEPT ![i] = now'] /\ UNCHANGED tret
               /\ UNCHANGED <<where, released, recv, ans, handed, lost, lostAt, stale, devs, closing>>
 
 (* hints *)
@@ -38,54 +40,55 @@ Hint(i, place) ==
    /\ where' = [where EXCEPT ![i] = place]
    /\ stale' = IF place = "pending" /\ ~Colliding(i) THEN stale \cup {i}
                ELSE IF place = "txq" THEN stale \ {i} ELSE stale
-   /\ UNCHANGED <<st, key, released, recv, ans, handed, lost, lostAt, devs, closing>>
+   /\ UNCHANGED <<st, key, released, recv, ans, handed, lost, lostAt, devs, closing, tcall, tret>>
 EvSet(i) == /\ released' = released \cup {i}
-            /\ UNCHANGED <<st, key, where, recv, ans, handed, lost, lostAt, stale, devs, closing>>
+            /\ UNCHANGED <<st, key, where, recv, ans, handed, lost, lostAt, stale, devs, closing, tcall, tret>>
 
 (* the peer *)
 PeerRecv(i) == /\ recv' = recv \cup {i}
-               /\ UNCHANGED <<st, key, where, released, ans, handed, lost, lostAt, stale, devs, closing>>
+               /\ UNCHANGED <<st, key, where, released, ans, handed, lost, lostAt, stale, devs, closing, tcall, tret>>
 PeerSend(i) == /\ i \in recv /\ ans' = ans \cup {i}
-               /\ UNCHANGED <<st, key, where, released, recv, handed, lost, lostAt, stale, devs, closing>>
+               /\ UNCHANGED <<st, key, where, released, recv, handed, lost, lostAt, stale, devs, closing, tcall, tret>>
 Lose == /\ lost' = TRUE /\ lostAt' = (IF lost \/ closing THEN lostAt ELSE now')
-        /\ UNCHANGED <<st, key, where, released, recv, ans, handed, stale, devs, closing>>
+        /\ UNCHANGED <<st, key, where, released, recv, ans, handed, stale, devs, closing, tcall, tret>>
 (* the user asks for a shutdown: from now on callers may be released with a connection error *)
 DiscCall == /\ closing' = TRUE /\ lostAt' = (IF lost \/ closing THEN lostAt ELSE now')
-            /\ UNCHANGED <<st, key, where, released, recv, ans, handed, stale, devs, lost>>
+            /\ UNCHANGED <<st, key, where, released, recv, ans, handed, stale, devs, lost, tcall, tret>>
 
 (* what the property allows a caller to get *)
 RetReply(i, gid) ==          \* its own reply, handed to nobody else
    /\ st[i] = "called" /\ gid = i /\ i \in ans /\ gid \notin handed
    /\ handed' = handed \cup {gid}
-   /\ st' = [st EXCEPT ![i] = "ret"]
-   /\ UNCHANGED <<key, where, released, recv, ans, lost, lostAt, stale, devs, closing>>
+   /\ st' = [st EXCEPT ![i] = "ret"] /\ tret' = [tret EXCEPT ![i] = now']
+   /\ UNCHANGED <<key, where, released, recv, ans, lost, lostAt, stale, devs, closing, tcall>>
 RetTimeout(i, dt) ==         \* only a peer that ignored the request, on a live connection, after the time-out
    /\ st[i] = "called" /\ ~lost /\ dt >= Tmo /\ dt <= Tmo + 5
-   /\ \E j \in Callers : key[j] = key[i] /\ j \in recv /\ j \notin ans    \* own or colliding request ignored
-   /\ st' = [st EXCEPT ![i] = "ret"]
-   /\ UNCHANGED <<key, where, released, recv, ans, handed, lost, lostAt, stale, devs, closing>>
+   /\ \E j \in Callers : /\ key[j] = key[i] /\ j \in recv /\ j \notin ans      \* own or colliding request ignored,
+                         /\ (j = i \/ st[j] = "called" \/ tret[j] >= tcall[i])   \* the colliding one still outstanding when i called
+   /\ st' = [st EXCEPT ![i] = "ret"] /\ tret' = [tret EXCEPT ![i] = now']
+   /\ UNCHANGED <<key, where, released, recv, ans, handed, lost, lostAt, stale, devs, closing, tcall>>
 RetConnErr(i) ==             \* connection error, promptly after the loss
    /\ st[i] = "called" /\ (lost \/ closing) /\ now' <= lostAt + Prompt
-   /\ st' = [st EXCEPT ![i] = "ret"]
-   /\ UNCHANGED <<key, where, released, recv, ans, handed, lost, lostAt, stale, devs, closing>>
+   /\ st' = [st EXCEPT ![i] = "ret"] /\ tret' = [tret EXCEPT ![i] = now']
+   /\ UNCHANGED <<key, where, released, recv, ans, handed, lost, lostAt, stale, devs, closing, tcall>>
 
 RetRefused(i) ==             \* a caller that arrived after the loss: its own reconnect attempt was refused
    /\ st[i] = "called" /\ (lost \/ closing) /\ where[i] = "none"     \* nothing of it was ever queued or sent
-   /\ st' = [st EXCEPT ![i] = "ret"]
-   /\ UNCHANGED <<key, where, released, recv, ans, handed, lost, lostAt, stale, devs, closing>>
+   /\ st' = [st EXCEPT ![i] = "ret"] /\ tret' = [tret EXCEPT ![i] = now']
+   /\ UNCHANGED <<key, where, released, recv, ans, handed, lost, lostAt, stale, devs, closing, tcall>>
 
 (* named deviations of the pinned implementation (known findings); each records itself *)
-Dev(i, name) == /\ st[i] = "called" /\ st' = [st EXCEPT ![i] = "ret"]
+Dev(i, name) == /\ st[i] = "called" /\ st' = [st EXCEPT ![i] = "ret"] /\ tret' = [tret EXCEPT ![i] = now']
                 /\ devs' = devs \cup {name}
-                /\ UNCHANGED <<key, where, released, recv, ans, handed, lost, lostAt, stale, closing>>
+                /\ UNCHANGED <<key, where, released, recv, ans, handed, lost, lostAt, stale, closing, tcall>>
 (* a request parked behind a colliding one *after* that one had been answered: nobody re-queues it *)
 Dev_TimeoutStalePark(i) == i \in stale /\ where[i] = "pending" /\ i \notin recv /\ ~lost /\ Dev(i, "TimeoutStalePark")
 (* a request still sitting in (or put into) the transmit queue when the connection was torn down *)
 Dev_TimeoutLostInTxq(i) == lost /\ where[i] \in {"txq", "tx"} /\ i \notin released /\ Dev(i, "TimeoutLostInTxq")
 
-DiscRetOK == UNCHANGED <<st, key, where, released, recv, ans, handed, lost, lostAt, stale, devs, closing>>
+DiscRetOK == UNCHANGED <<st, key, where, released, recv, ans, handed, lost, lostAt, stale, devs, closing, tcall, tret>>
 Dev_DiscRaised(who) == /\ devs' = devs \cup {"JoinOnClearedHandle"}
-                       /\ UNCHANGED <<st, key, where, released, recv, ans, handed, lost, lostAt, stale, closing>>
+                       /\ UNCHANGED <<st, key, where, released, recv, ans, handed, lost, lostAt, stale, closing, tcall, tret>>
 
 (* invariants over the observable state (mirror Client.tla's) *)
 AtMostOnce == Cardinality(handed) = Cardinality({i \in Callers : st[i] = "ret" /\ i \in handed})
